@@ -164,6 +164,15 @@ def case_population(ctx, case):
                                 observed=[getattr(a, 'id', repr(a)) for a in got], population=popsig)
         got2 = env.get_agents(*template, **kw)
         check(got2 is not got, 'get_agents returned the same list object twice', query=q)
+        if tag is None and rng.random() < 0.3:
+            from vlib import reps
+            check(same_objects(reps.deprecated_call(env.getAgents, *template), exp), 'the deprecated getAgents() differs from the reference filter', query=q)
+            r_ = reps.deprecated_call(env.getRandomAgent, *template)
+            check((r_ is None and not exp) or any(r_ is a for a in exp), 'the deprecated getRandomAgent() returned an agent outside the filter', query=q)
+            for a in order[:3]:
+                check(reps.deprecated_call(a.hasComponent, *template) == all(T in a.components for T in template),
+                      'the deprecated hasComponent() disagrees with the agent\'s components', query=q)
+            ctx.count('deprecated_alias_calls')
         del got[:]
         got.append('junk')
         check(same_objects(env.get_agents(*template, **kw), exp), 'mutating a returned list changed later answers', query=q)
